@@ -740,6 +740,26 @@ func Main() {
 		}
 	case "selftest":
 		os.Exit(SelfTest())
+	case "explore": // debug: explore <id> <tier> <scenario substring> <bound>
+		bound, _ := strconv.Atoi(os.Args[5])
+		for _, p := range registry[os.Args[2]].Plans(os.Args[3]) {
+			if !strings.Contains(p.Scen.Name, os.Args[4]) {
+				continue
+			}
+			s := p.Scen
+			st, v := sched.Explore(sched.Config{Model: s.Model, Bound: bound, NoCache: s.NoCache, Opts: opts(s)}, s.Body, s.Check)
+			fmt.Printf("%s: execs=%d states=%d depth=%d\n", s.Name, st.Execs, st.States, st.MaxDepth)
+			for o, n := range st.Outcomes {
+				fmt.Printf("   %6d  %s\n", n, o)
+			}
+			if v != nil {
+				fmt.Println(sched.FormatViolation(v))
+				e := sched.Replay(opts(s), v.Choices, s.Body)
+				for _, t := range e.Trace {
+					fmt.Println("    ", t)
+				}
+			}
+		}
 	default:
 		os.Exit(2)
 	}
